@@ -113,7 +113,7 @@ impl<'a> Dec<'a> {
         let c = &mut self.c;
         // 0 maps to the smallest id-carrying shape class; large and over-aligned shapes on request
         match c.weighted(&[6, 3, 2, 2]) {
-            0 => c.pick(24) as u16,
+            0 => c.pick(24.min(SHAPES.len())) as u16,
             1 => c.pick16(SHAPES.len()) as u16,
             2 => {
                 // big
@@ -121,7 +121,7 @@ impl<'a> Dec<'a> {
                 if SHAPES[i].0 >= 200 {
                     i as u16
                 } else {
-                    (SHAPES.len() - 1 - c.pick(30)) as u16
+                    (SHAPES.len() - 1 - c.pick(30.min(SHAPES.len()))) as u16
                 }
             }
             _ => {
@@ -130,7 +130,7 @@ impl<'a> Dec<'a> {
                 if SHAPES[i].1 >= 16 {
                     i as u16
                 } else {
-                    (SHAPES.len() - 1 - c.pick(100)) as u16
+                    (SHAPES.len() - 1 - c.pick(100.min(SHAPES.len()))) as u16
                 }
             }
         }
@@ -170,8 +170,39 @@ impl<'a> Dec<'a> {
             }
             self.budget -= 1;
             if let Some(op) = self.op(ctx, depth) {
+                let is_new_actor = matches!(op, Op::NewActor { .. });
                 ops.push(op);
+                // asynchronous initialisation pattern: calls made while the newest actor is
+                // still in Prep, then a Prep-style call that completes it, then more calls
+                // (a = 255 addresses the newest actor)
+                if is_new_actor && ctx != Ctx::NoCore && depth < 5 && self.c.chance(match self.focus {
+                    Focus::Calls => 150,
+                    Focus::Term | Focus::Neutral | Focus::Ret => 60,
+                    _ => 16,
+                }) {
+                    let n = 1 + self.c.pick(4);
+                    for _ in 0..n {
+                        let shape = self.shape_id();
+                        let body = self.body(Ctx::Ready, depth + 2);
+                        let nbag = self.nbag();
+                        ops.push(Op::Call { a: 255, via: 0, shape, body, nbag });
+                    }
+                    if self.c.chance(60) {
+                        ops.push(Op::Run { dt: 1, idle: false, back: false });
+                    }
+                    let shape = self.shape_id();
+                    let body = self.body(Ctx::Prep, depth + 2);
+                    ops.push(Op::PrepCall { a: 255, shape, body, nbag: 0 });
+                    let shape = self.shape_id();
+                    let body = self.body(Ctx::Ready, depth + 2);
+                    ops.push(Op::Call { a: 255, via: 1, shape, body, nbag: 0 });
+                    self.budget -= 3;
+                }
             }
+        }
+        if ctx == Ctx::Prep && !ops.iter().any(|o| matches!(o, Op::ReturnSome)) && self.c.chance(120) {
+            // initialisation completes in this step
+            ops.push(Op::ReturnSome);
         }
         self.prog.bodies[idx] = ops;
         idx as BodyIdx
@@ -401,7 +432,7 @@ pub fn describe(prog: &Prog) -> Vec<String> {
                 Op::Call { a, via, shape, body, nbag } => (
                     format!(
                         "{} actor#{} method (capture size {} align {}) moving {} handle(s)",
-                        ["call!([a])", "call!([a, core])", "lazy!([a, core])", "idle!([a, core])", "after!(1.5ms, [a, core])"][*via as usize % 5],
+                        ["call!([a])", "call!([a, core])"][*via as usize % 2],
                         a,
                         SHAPES[*shape as usize].0,
                         SHAPES[*shape as usize].1,
